@@ -728,13 +728,7 @@ class ItemGrader(AbstractGrader):
         # are always inferring answers
         if expect is not None and (self.inferring_answers or not self.config['answers']):
             inferred = self.infer_from_expect(expect)
-
-            # Create the debug log...
-            self.create_debuglog(student_input)
-            # ... so that we can add the inferred answers to it before
-            # calling AbstractGrader.__call__
             output = json.dumps(inferred)  # How to avoid unicode 'u' showing up!
-            self.log("Expect value inferred to be {}".format(output))
 
             # Validate the answers (schema, then post-schema validation) before storing
             # anything, so that a bad expect value leaves the grader as it was
@@ -747,8 +741,17 @@ class ItemGrader(AbstractGrader):
             # Mark that we are using inferred answers
             self.inferring_answers = True
 
+            # Create the debug log, so that we can add the inferred answers to it
+            # before calling AbstractGrader.__call__
+            self.create_debuglog(student_input)
+            self.log("Expect value inferred to be {}".format(output))
+
         # And punt the actual __call__ function to the superclass
-        return super(ItemGrader, self).__call__(expect, student_input, **kwargs)
+        try:
+            return super(ItemGrader, self).__call__(expect, student_input, **kwargs)
+        finally:
+            # Whatever happened, a new log must be created when called again
+            self.log_created = False
 
     def infer_from_expect(self, expect):
         """
